@@ -380,7 +380,7 @@ func (rw *rewriter) pre(c *astutil.Cursor) bool {
 		if t != nil {
 			if _, ok := t.Underlying().(*types.Chan); ok {
 				rw.rangeCh[n] = true
-			} else if orderedKey(t) && n.Tok != token.ASSIGN {
+			} else if orderedKey(t) {
 				rw.rangeMap[n] = true
 			}
 		}
@@ -601,20 +601,38 @@ func (rw *rewriter) rewriteRangeMap(n *ast.RangeStmt) ast.Stmt {
 	keyName := rw.fresh("k")
 	var head []ast.Stmt
 	okName := rw.fresh("ok")
-	valLhs := ast.Expr(ast.NewIdent("_"))
-	if !isBlank(n.Value) {
-		valLhs = n.Value
-	}
-	// skip keys deleted during the iteration, as Go does
-	head = append(head,
-		&ast.AssignStmt{Lhs: []ast.Expr{valLhs, ast.NewIdent(okName)}, Tok: token.DEFINE,
-			Rhs: []ast.Expr{&ast.IndexExpr{X: operand(mExpr), Index: ast.NewIdent(keyName)}}},
-		&ast.IfStmt{Cond: &ast.UnaryExpr{Op: token.NOT, X: ast.NewIdent(okName)},
-			Body: &ast.BlockStmt{List: []ast.Stmt{&ast.BranchStmt{Tok: token.CONTINUE}}}},
-	)
-	if !isBlank(n.Key) {
-		head = append(head, &ast.AssignStmt{Lhs: []ast.Expr{n.Key}, Tok: token.DEFINE, Rhs: []ast.Expr{ast.NewIdent(keyName)}},
-			&ast.AssignStmt{Lhs: []ast.Expr{ast.NewIdent("_")}, Tok: token.ASSIGN, Rhs: []ast.Expr{n.Key}})
+	if n.Tok == token.ASSIGN {
+		// for k, v = range m: the loop variables exist already
+		valName := rw.fresh("v")
+		head = append(head,
+			&ast.AssignStmt{Lhs: []ast.Expr{ast.NewIdent(valName), ast.NewIdent(okName)}, Tok: token.DEFINE,
+				Rhs: []ast.Expr{&ast.IndexExpr{X: operand(mExpr), Index: ast.NewIdent(keyName)}}},
+			&ast.IfStmt{Cond: &ast.UnaryExpr{Op: token.NOT, X: ast.NewIdent(okName)},
+				Body: &ast.BlockStmt{List: []ast.Stmt{&ast.BranchStmt{Tok: token.CONTINUE}}}},
+			&ast.AssignStmt{Lhs: []ast.Expr{ast.NewIdent("_")}, Tok: token.ASSIGN, Rhs: []ast.Expr{ast.NewIdent(valName)}},
+		)
+		if !isBlank(n.Key) {
+			head = append(head, &ast.AssignStmt{Lhs: []ast.Expr{n.Key}, Tok: token.ASSIGN, Rhs: []ast.Expr{ast.NewIdent(keyName)}})
+		}
+		if !isBlank(n.Value) {
+			head = append(head, &ast.AssignStmt{Lhs: []ast.Expr{n.Value}, Tok: token.ASSIGN, Rhs: []ast.Expr{ast.NewIdent(valName)}})
+		}
+	} else {
+		valLhs := ast.Expr(ast.NewIdent("_"))
+		if !isBlank(n.Value) {
+			valLhs = n.Value
+		}
+		// skip keys deleted during the iteration, as Go does
+		head = append(head,
+			&ast.AssignStmt{Lhs: []ast.Expr{valLhs, ast.NewIdent(okName)}, Tok: token.DEFINE,
+				Rhs: []ast.Expr{&ast.IndexExpr{X: operand(mExpr), Index: ast.NewIdent(keyName)}}},
+			&ast.IfStmt{Cond: &ast.UnaryExpr{Op: token.NOT, X: ast.NewIdent(okName)},
+				Body: &ast.BlockStmt{List: []ast.Stmt{&ast.BranchStmt{Tok: token.CONTINUE}}}},
+		)
+		if !isBlank(n.Key) {
+			head = append(head, &ast.AssignStmt{Lhs: []ast.Expr{n.Key}, Tok: token.DEFINE, Rhs: []ast.Expr{ast.NewIdent(keyName)}},
+				&ast.AssignStmt{Lhs: []ast.Expr{ast.NewIdent("_")}, Tok: token.ASSIGN, Rhs: []ast.Expr{n.Key}})
+		}
 	}
 	loop := &ast.RangeStmt{
 		Key:   ast.NewIdent("_"),
